@@ -87,6 +87,9 @@ void v_stop(void);
 #define V_STOP() v_stop()
 #endif
 
+/* assertion after which the path ends when it fails (later checks may dereference what this one establishes) */
+#define V_CHECK(c, msg) do { int v_c_ = (c) ? 1 : 0; V_ASSERT(v_c_, msg); if (!v_c_) V_STOP(); } while (0)
+
 /* string equality for stubs (literal apply names): plain loop, terminates on concrete strings */
 static inline int v_streq(const char *a, const char *b) {
   if (!a || !b) return 0;
